@@ -48,7 +48,7 @@ func GetFullNodes(names ...string) []*FullNode {
 	for i, n := range names {
 		fn := procFull[n]
 		if fn == nil {
-			c, err := cache.New(1<<20, 64)
+			c, err := cache.New(1<<12, 64)
 			if err != nil {
 				panic(err)
 			}
